@@ -7,6 +7,7 @@ import (
 	"testing"
 	"time"
 
+	"github.com/bfenetworks/bfe/bfe_module"
 	"pgregory.net/rapid"
 
 	"verif/harness/internal/ev"
@@ -26,7 +27,7 @@ type c28Req struct {
 
 func TestC28(t *testing.T) {
 	rec := ev.New("C28", "1..6 pipelined requests (GET, HEAD, POST with Content-Length / chunked / Expect: 100-continue, a malformed request or an oversized header in the middle) are written on one client connection in generated TCP segmentations; request bodies carry decoy request text; backends answer normally or right after the header section without reading the body. Oracle: responses parse in order, response i echoes request i's target, no backend ever sees a target that was only sent as body bytes. non-trivial: >=2 requests and >=1 with a body; distinct by sequence shape + segmentation")
-	w := startWorld(t, 2, sys.Options{MaxHeaderBytes: 8192}, func(ports []int) *sys.DataConf {
+	w := startWorld(t, 2, sys.Options{MaxHeaderBytes: 8192, AfterInit: installFilters}, func(ports []int) *sys.DataConf {
 		cl := sys.Cluster{Name: "c", RetryMax: 0, TimeoutResponseHeaderMs: 3000, TimeoutReadClientMs: 3000}
 		sc := sys.SubCluster{Name: "c.sub", Weight: 100}
 		for i, p := range ports {
@@ -40,6 +41,12 @@ func TestC28(t *testing.T) {
 		n++
 		k := rapid.IntRange(1, 6).Draw(rt, "nreq")
 		var reqs []c28Req
+		var filtTargets []string
+		defer func() {
+			for _, ft := range filtTargets {
+				hub.del(ft)
+			}
+		}()
 		hasBody := false
 		for i := 0; i < k; i++ {
 			target := fmt.Sprintf("/c28/%d/%d", n, i)
@@ -86,6 +93,21 @@ func TestC28(t *testing.T) {
 			}
 			if r.Early {
 				w.setScript(target, &respScript{Early: true})
+			} else if kind != "malformed" && kind != "oversized" {
+				switch rapid.IntRange(0, 7).Draw(rt, "variant") {
+				case 0:
+					// backend answers without Content-Length (close-delimited)
+					r.Kind += "+nocl"
+					w.setScript(target, &respScript{NoCL: true})
+				case 1, 2:
+					// a module answers the request itself, without reading the body
+					r.Kind += "+modresp"
+					pt := reqPoints[rapid.IntRange(0, 2).Draw(rt, "modpoint")]
+					fs := &filtScript{V: map[int][]int{pt: {bfe_module.BfeHandlerResponse}}, RespStatus: 403, RespBody: "denied",
+						RespHeader: map[string]string{"X-Echo-Target": target}}
+					hub.set(target, fs)
+					filtTargets = append(filtTargets, target)
+				}
 			}
 			reqs = append(reqs, r)
 		}
@@ -158,7 +180,7 @@ func TestC28(t *testing.T) {
 				}
 				parsedUpTo += m.ConsumedLen
 				if m.Status == 100 {
-					if reqs[ri].Kind != "post-expect" {
+					if !strings.HasPrefix(reqs[ri].Kind, "post-expect") {
 						return fmt.Errorf("100 Continue for request %d (%s) that did not expect it", ri, reqs[ri].Kind)
 					}
 					continue
@@ -235,6 +257,11 @@ func TestC28(t *testing.T) {
 				}
 			} else {
 				rec.Class(fmt.Sprintf("status:%d:%s", m.Status, reqs[i].Kind))
+				if len(echo) > 0 && echo[0] != reqs[i].Target {
+					if !rec.Fail(rt, "response-order", wit, "response %d (status %d) echoes target %v, want %s", i, m.Status, echo, reqs[i].Target) {
+						return
+					}
+				}
 			}
 			if (reqs[i].Kind == "malformed" || reqs[i].Kind == "oversized") && m.Status == 200 {
 				if !rec.Fail(rt, "bad-request-forwarded:"+reqs[i].Kind, wit, "request %d (%s) was answered 200", i, reqs[i].Kind) {
